@@ -1,7 +1,7 @@
 (* C02/Properties.v — property theorems only.  Each is closed by [exact lemma] and followed by
    [Print Assumptions]. *)
 From RM Require Import C08.Model.
-From RM Require Import C02.Model C02.ModelR5 C02.ModelR6 C02.Documented C02.Proofs1 C02.Proofs2 C02.Proofs3 C02.Proofs4 C02.Proofs5 C02.Proofs6 C02.Proofs7 C02.Proofs8 C02.Proofs9 C02.Proofs10 C02.Proofs11 C02.Proofs12.
+From RM Require Import C02.Model C02.ModelR5 C02.ModelR6 C02.Documented C02.Proofs1 C02.Proofs2 C02.Proofs3 C02.Proofs4 C02.Proofs5 C02.Proofs6 C02.Proofs7 C02.Proofs8 C02.Proofs9 C02.Proofs10 C02.Proofs11 C02.Proofs12 C02.Proofs13.
 Open Scope Z_scope.
 
 (* The layouts regenerated from minidump-common/src/format.rs on this run are the documented ones:
@@ -720,4 +720,28 @@ Example c02_nonvacuous_maps :
              49; 56; 48; 49; 52; 51; 57; 56; 53; 48; 57; 52; 56; 49; 57; 56; 52; 32; 107; 66; 10] in
    parse_maps Debug t = Panic 3 /\ ostatus_is_ret (parse_maps Release t) = true) /\
   classify [47; 83; 89; 83; 86; 49; 50] = Panic 2 /\ classify [91; 115; 116; 97; 99; 107; 58; 53; 195; 169] = Panic 1.
+Proof. vm_compute. repeat split; reflexivity. Qed.
+
+(* smaps listings: after every mapping any number of attribute lines the reader accepts (UTF-8, one line, opening with A-Z, and
+   `VmFlags...` / `Key: n` / `Key: n kB` with n a u64 whose product with 1024 does not trap) — the mappings read back unchanged *)
+Theorem c02_smaps_roundtrip : forall p l,
+  forallb (fun x => wf_entry (fst x) && forallb (attr_ok p) (snd x)) l = true ->
+  parse_maps p (smaps_text l) = Ret (map (fun x => snd (fst x)) l).
+Proof. exact smaps_roundtrip. Qed.
+Print Assumptions c02_smaps_roundtrip.
+
+(* ALL inputs (any bytes): the debug and the release build of the reader return the same, except that the debug build may stop at
+   the multiplication of an smaps line (tag 3); the reader ends in regions, an error or one of its three panic sites, never
+   anything else *)
+Theorem c02_maps_profiles : forall b,
+  (parse_maps Debug b = parse_maps Release b \/ parse_maps Debug b = Panic 3) /\ tame (parse_maps Debug b) /\ tame (parse_maps Release b).
+Proof. intro b. split; [apply maps_profiles|split; apply maps_tame]. Qed.
+Print Assumptions c02_maps_profiles.
+
+Example c02_nonvacuous_smaps :
+  let rss := [82; 115; 115; 58; 32; 32; 52; 32; 107; 66] in                       (* "Rss:  4 kB" *)
+  let vmf := [86; 109; 70; 108; 97; 103; 115; 58; 32; 114; 100; 32; 101; 120] in   (* "VmFlags: rd ex" *)
+  let l := match ex_maps with a :: _ :: _ :: d :: _ => [(a, [rss; vmf]); (d, [])] | _ => [] end in
+  forallb (fun x => wf_entry (fst x) && forallb (attr_ok Debug) (snd x)) l = true /\
+  parse_maps Debug (smaps_text l) = Ret (map (fun x => snd (fst x)) l) /\ zlen (map (fun x => snd (fst x)) l) = 2.
 Proof. vm_compute. repeat split; reflexivity. Qed.
